@@ -109,6 +109,8 @@ def oracle(ck, extended):
     rng = ck.rng
     import pywt
     q = ck.tier == 'quick'
+    # deterministic witness of the recorded finding
+    rt.guard(ck, oracle_pr, ck, 1, 2, 1, 'db3', np.array([[[1., -2., 3., 0.5]]]))
     names = pywt.wavelist(kind='discrete')
     n = (140 if q else 1500) * (3 if extended else 1)
     for it in range(n):
